@@ -200,6 +200,16 @@ func driveMink(r *rand.Rand, w *writer, n int) {
 				cur = Pt{cur[0] + int64(r.Intn(61)-30), cur[1] + int64(r.Intn(61)-30)}
 			}
 		}
+		if r.Intn(16) == 0 { // many-vertex operands: 170..870 quadrilaterals in one call
+			pattern = regularish(r, 0, 0, 18+14*r.Float64(), 17+r.Intn(13))
+			np = 10 + r.Intn(20)
+			path = path[:0]
+			cur = Pt{int64(r.Intn(60) - 30), int64(r.Intn(60) - 30)}
+			for k := 0; k < np; k++ {
+				path = append(path, cur)
+				cur = Pt{cur[0] + int64(r.Intn(41)-20), cur[1] + int64(r.Intn(41)-20)}
+			}
+		}
 		e := &MinkEv{Ev: "Mink", Chk: chkFor("C08"), Pattern: pattern, Path: path, Closed: r.Intn(2) == 0, Sum: r.Intn(2) == 0}
 		execMink(r, e)
 		w.emit(e)
